@@ -59,6 +59,8 @@ var menu = []ser{
 	{"ms", "a", []string{"t", "k:v"}, "h", []float64{0.5, 8}},
 	{"ms", "th", []string{"gsd_histogram:1_5"}, "h", []float64{0.5, 3, 7}},
 	{"ms", "th", []string{"gsd_histogram:2", "k:v"}, "", []float64{2, 9}},
+	{"ms", "th3", []string{"gsd_histogram:1_5", "k:v"}, "h", []float64{0.5, 3, 7}},
+	{"ms", "th5", []string{"gsd_histogram:1_5", "k:v", "t", "u:w"}, "h", []float64{0.5, 7}},
 	{"c", "many", manyTags, "", []float64{6}},
 	{"g", "a", []string{"a/b:c d"}, "", []float64{10}},
 	{"c", "Z", []string{"unnamed:u", "x"}, "src2", []float64{9}},
@@ -732,7 +734,7 @@ func checkMap(ms mapSpec, kinds []string) {
 			}
 		}
 		// series isolation: entries of the map = union of the entries of its single-series maps
-		if len(ms.Series) > 1 && !strings.HasPrefix(kind, "statsdaemon") && !strings.HasPrefix(kind, "otlp") {
+		if len(ms.Series) > 1 && !strings.HasPrefix(kind, "statsdaemon") {
 			union := map[string]int{}
 			for _, i := range ms.Series {
 				one := mapSpec{[]int{i}, ms.Pct, ms.Mask}
@@ -767,6 +769,33 @@ func checkMap(ms mapSpec, kinds []string) {
 					res.Violate("tags-or-host "+kind, fmt.Sprintf("backend %s series %+v entry %q: %s", kind, s, e.Name, d), map[string]any{"spec": ms, "kind": kind, "batch": 0})
 				}
 			}
+			// histogram buckets: every bound label once
+			mm.Timers.Each(func(_, _ string, t gostatsd.Timer) {
+				if kind == "graphite-basic" || kind == "graphite-legacy" {
+					return // these modes carry no tags at all, the bucket label included
+				}
+				for b := range t.Histogram {
+					label := "+Inf"
+					if !math.IsInf(float64(b), 1) {
+						label = strconv.FormatFloat(float64(b), 'f', -1, 64)
+					}
+					n := 0
+					for _, e := range baseEntries {
+						for _, tg := range e.Tags {
+							if i := strings.Index(tg, "le"); i >= 0 && strings.Contains(tg[i:], label) {
+								n++
+								break
+							}
+						}
+						if strings.Contains(e.Name, "le:"+label) || strings.Contains(e.Name, "le."+label) {
+							n++
+						}
+					}
+					if n != 1 && !(label != "+Inf" && strings.Contains("+Inf", label)) {
+						res.Violate("histogram-bucket-label "+kind, fmt.Sprintf("backend %s series %+v: %d entries carry the bucket label le=%s, want exactly 1; entries %v", kind, s, n, label, baseEntries), map[string]any{"spec": ms, "kind": kind, "batch": 0})
+					}
+				}
+			})
 			sort.Float64s(got)
 			ok := len(got) == len(want)
 			for i := 0; ok && i < len(got); i++ {
